@@ -24,6 +24,7 @@ def tag_of(key):
 
 
 IGNORED_KEYS = set()
+FLAT_STATS = {}
 
 
 def obs_equal(kind, a, b):
@@ -271,6 +272,11 @@ def sem_oracle(k, s):
     if not spec.startswith("transpile="):
         return False                      # undefined behaviour or fuel: nothing prescribed
     o = s["impl"].get(k) or ""
+    fl = toks(spec).get("flat")
+    if fl is not None:
+        FLAT_STATS["defined"] = FLAT_STATS.get("defined", 0) + 1
+        if toks(o).get("status") == "0" and toks(o).get("out") != fl:
+            return "the flat shell model of the C01 theorems (Sem/FlatSem.v) prints %r, /bin/bash prints %r" % (hexs(fl)[:300], hexs(toks(o).get("out", ""))[:300])
     if obs_equal("run", o, spec):
         return None
     return "Bash run differs from the reference semantics: expected %s" % spec[:600]
@@ -340,7 +346,9 @@ def run_sem_round(ctx, ck, name, oracles, n, seed_off):
 
 
 def run_c01(ctx, ck):
+    IGNORED_KEYS.add("flat")
     run_sem(ctx, ck, ["sem-scalar"], [sem_oracle], 1500, 10000)
+    ctx.cov["flat_shell_model_validated_against_bash"] = FLAT_STATS.get("defined", 0)
 
 
 def run_c02(ctx, ck):
